@@ -225,7 +225,7 @@ pub fn run(ctx: &mut Ctx, replay: Option<&Value>, c09: bool) {
         run_case(ctx, case, c09);
         return;
     }
-    let n = ctx.cases.unwrap_or(if ctx.tier_thorough { 4_000 } else { 150 });
+    let n = ctx.count(300, 4_000);
     for i in 0..n {
         let mut rng = Rng::fork(ctx.seed, i);
         let kb_pct = if c09 { 100 } else { 85 };
